@@ -44,6 +44,9 @@ THEOREMS = [
     "SqlglotModel.Properties.C17.generated_cte_env_isolated",
     "SqlglotModel.Properties.C17.cte_sibling_independence",
     "SqlglotModel.Properties.C17.cte_shared_dict_leak_witness",
+    "SqlglotModel.Properties.C17.generated_no_settings_blind_memo",
+    "SqlglotModel.Properties.C17.expand_key_memo_sound",
+    "SqlglotModel.Properties.C17.expand_key_memo_without_settings_witness",
     "SqlglotModel.Properties.C17.twoCol_ok",
     "SqlglotModel.Properties.C17.stale_key_without_column_witness",
     "SqlglotModel.Properties.C17.twoSubq_ok",
@@ -61,6 +64,7 @@ KEY_NAMES = {
 
 
 KEY_PASSES = [1]
+MEMOISED = []
 CTE_PINS = [True, True]
 OUTER_LOOKUP = [False]  # set by translate(): to_node looks a column up in enclosing scopes (correlated subqueries)
 ALIAS_VARIANT = ["fullName"]
@@ -167,6 +171,52 @@ def translate(chk: Check) -> str:
             elif ".parent" in ast.unparse(lp):
                 chk.broken.append({"kind": "translator", "what": "C17 translator: structure changed: unrecognised enclosing-scope lookup in to_node"})
     chk.cov["outer_scope_lookup"] = OUTER_LOOKUP[0]
+    # no functools cache / module-level memo on the key normalisation path (a key holding a Dialect object is keyed by
+    # its CLASS only: Dialect.__eq__/__hash__ ignore settings)
+    memoised = None
+    try:
+        import glob as _glob
+
+        CACHE_DECOS = ("lru_cache", "cache", "cached_property", "memoize", "memoized")
+
+        def cache_deco(fn):
+            return any(ast.unparse(d).split("(")[0].split(".")[-1] in CACHE_DECOS for d in fn.decorator_list)
+
+        found = []
+        watch = {"builders.py": ["normalize_table_name", "expand"]}
+        files = sorted(_glob.glob(os.path.join(REPO, "sqlglot", "expressions", "*.py"))) + [os.path.join(REPO, "sqlglot", "lineage.py")]
+        seen_fns = set()
+        for path_ in files:
+            mod = ast.parse(open(path_, encoding="utf-8").read())
+            base = os.path.basename(path_)
+            targets = ["lineage", "to_node"] if base == "lineage.py" else ["normalize_table_name", "expand"]
+            fns = {n.name: n for n in mod.body if isinstance(n, ast.FunctionDef)}
+            memo_dicts = {ast.unparse(a.targets[0]) for a in mod.body if isinstance(a, ast.Assign) and len(a.targets) == 1
+                          and ((isinstance(a.value, ast.Dict) and not a.value.keys) or
+                               (isinstance(a.value, ast.Call) and ast.unparse(a.value.func).split(".")[-1] in ("dict", "OrderedDict", "WeakKeyDictionary", "defaultdict")))
+                          and not ast.unparse(a.targets[0]).isupper()}
+            for tname in targets:
+                fn = fns.get(tname)
+                if fn is None:
+                    continue
+                seen_fns.add(tname)
+                todo = [fn] + [fns[c.func.id] for c in ast.walk(fn) if isinstance(c, ast.Call) and isinstance(c.func, ast.Name)
+                               and c.func.id in fns and c.func.id != tname]
+                for g in todo:
+                    if cache_deco(g):
+                        found.append(f"{base}:{g.name}")
+                    for nm in ast.walk(g):
+                        if isinstance(nm, ast.Name) and nm.id in memo_dicts:
+                            found.append(f"{base}:{g.name}:{nm.id}")
+        if {"normalize_table_name", "expand", "lineage", "to_node"} <= seen_fns:
+            memoised = sorted(set(found))
+    except (OSError, SyntaxError):
+        pass
+    if memoised is None:
+        chk.broken.append({"kind": "translator", "what": "C17 translator: structure changed: normalize_table_name / expand / lineage / to_node not all found"})
+        memoised = []
+    MEMOISED[:] = memoised
+    chk.cov["memoised_normalisers"] = memoised
     # scope building: does every child scope get its OWN copy of the parent's cte_sources mapping?
     copies = inplace = None
     try:
@@ -244,6 +294,8 @@ def translate(chk: Check) -> str:
         f"/-- scope.py: Scope.branch gives every child a NEW cte_sources dict / _traverse_ctes updates it in place -/\n"
         f"def branchCopiesCteSources : Bool := {'true' if CTE_PINS[0] else 'false'}\n"
         f"def traverseCtesUpdatesInPlace : Bool := {'true' if CTE_PINS[1] else 'false'}\n"
+        f"/-- functions on the sources-key normalisation path that carry a functools cache / use a module-level memo dict -/\n"
+        "def memoisedNormalisers : List String := [" + ", ".join('"' + m + '"' for m in MEMOISED) + "]\n"
         "end SqlglotModel.Generated.C17\n"
     )
 
@@ -771,6 +823,7 @@ _TRAITS = {}
 
 def dialect_traits(dialect):
     """(quoting a lower-case name keeps it resolvable, a double-quoted token is a string literal)"""
+    dialect = dialect if dialect is None or isinstance(dialect, str) else str(dialect)
     if dialect not in _TRAITS:
         from sqlglot.dialects.dialect import Dialect
 
@@ -1227,6 +1280,15 @@ def classify(got, exp_, outer_names, outer_flow):
     return kind
 
 
+def dialect_arg(case):
+    """what is passed as `dialect=`: the spec string, or (settings-switch sequences) a Dialect INSTANCE built from it"""
+    if getattr(case, "as_instance", False):
+        from sqlglot.dialects.dialect import Dialect
+
+        return Dialect.get_or_raise(case.dialect)
+    return case.dialect
+
+
 def oracle(case, only=None):
     """-> list of violations (kind, column, detail dict). Evaluates the property's statement on the real code."""
     viol = []
@@ -1235,7 +1297,7 @@ def oracle(case, only=None):
     for name, (sql, sources) in pres.items():
         if only and name not in only and name != "inline":
             continue
-        allr = real_leaves(None, sql, sources, case.schema, case.dialect)
+        allr = real_leaves(None, sql, sources, case.schema, dialect_arg(case))
         per[name] = (sql, sources, allr)
         if isinstance(allr, tuple):
             continue  # judged below: an exception counts when the other presentations do not raise the same way
@@ -1247,7 +1309,7 @@ def oracle(case, only=None):
             got_all = allr[col.lower()]
             exp_ = case.truth[i]
             n = len(case.names)
-            one = real_leaves(col, sql, sources, case.schema, case.dialect) if (n <= 3 or i in (0, n // 2, n - 1)) else got_all
+            one = real_leaves(col, sql, sources, case.schema, dialect_arg(case)) if (n <= 3 or i in (0, n // 2, n - 1)) else got_all
             if one != got_all:
                 viol.append(("all-vs-one", col, {"pres": name, "sql": sql, "sources": sources, "all": got_all, "one": one}))
             got = one if not isinstance(one, tuple) else got_all
@@ -1266,6 +1328,65 @@ def oracle(case, only=None):
                 viol.append(("exception", None, {"pres": n, "sql": per[n][0], "sources": per[n][1], "got": text,
                                                  "others": fine, "one_presentation": len(raising) == 1}))
     return viol, per
+
+
+SWITCH_CLASSES = ["snowflake", "duckdb", "postgres", "mysql"]
+SWITCH_SETTINGS = ["", ", normalization_strategy=case_sensitive", ", normalization_strategy=case_insensitive",
+                   ", normalization_strategy=uppercase", ", normalization_strategy=lowercase"]
+
+
+def settings_switch(chk, q, path, style, nameforms, specs):
+    """the same query and the SAME source-name strings traced under a sequence of Dialect OBJECTS of one class that
+    differ only in settings, in this process, in this order.  A step whose presentations disagree with each other (leaves,
+    or one raises and another answers), or that disagrees with the syntactic flow while the very same step evaluated
+    FIRST would not, depends on process history -> kind `settings-switch`.  Steps on which every presentation gives the
+    same wrong/failed answer are not counted (the spec makes the query unresolvable)."""
+    steps = []
+    for k, spec in enumerate(specs):
+        case = Case(q, path, spec, style, nameforms)
+        case.as_instance = True
+        viol, per = oracle(case)
+        steps.append({"spec": spec, "presentations": {n: [v[0], v[1]] for n, v in per.items()}})
+        answers = {n: (v[2] if not isinstance(v[2], tuple) else ("exc", v[2][1].split(":")[0])) for n, v in per.items()}
+        same = all(a == answers["inline"] for n, a in answers.items() if n != "renamed")
+        chk.count("switch:steps")
+        if not viol or same:
+            continue
+        if k == 0:
+            return  # the first spec itself has an (ordinary) finding: reported by the ordinary oracle, not a switch effect
+        v = sorted(viol, key=lambda x: (x[2].get("pres") != "src", x[0]))[0]
+        kind, col, d = v
+        key = f"settings-switch|{d['pres']}|" + "+".join(sorted(case.feats))
+        chk.report_violation(
+            key, f"after tracing under {specs[:k]} the same query under {spec!r} answers differently in the {d['pres']} presentation: "
+                 f"{d['sql'][:160]} column={col} got={d.get('got') or d.get('one')} expected={d.get('expected')}",
+            {"kind": "settings-switch", "steps": steps, "schema": case.schema, "presentation": d["pres"], "column": col,
+             "expected": d.get("expected"), "got": d.get("got") or d.get("one"), "was": kind},
+            context={"presentation": d["pres"], "dialect": spec})
+        return
+
+
+def replay_switch(rp):
+    """re-run the whole sequence in order (fresh process): violates iff the LAST step's recorded presentation differs from
+    the recorded flow / raises while another presentation answers"""
+    from sqlglot.dialects.dialect import Dialect
+
+    last = None
+    for st in rp["steps"]:
+        d = Dialect.get_or_raise(st["spec"])
+        last = {n: real_leaves(None, sq[0], sq[1], rp["schema"], d) for n, sq in st["presentations"].items()}
+    got = last[rp["presentation"]]
+    col = rp.get("column")
+    if isinstance(got, tuple):
+        ok = [n for n, v in last.items() if not isinstance(v, tuple)]
+        return bool(ok), f"last step raises {got[1]} in {rp['presentation']}; presentations that answer: {ok}"
+    if col is None or rp.get("expected") is None:
+        others = {n: v for n, v in last.items() if n != "renamed" and not isinstance(v, tuple)}
+        bad = any(v != got for v in others.values())
+        return bad, f"last step: presentations {'disagree' if bad else 'agree'}"
+    g = got.get(col.lower())
+    exp_ = [tuple(x) for x in rp["expected"]]
+    return (g != exp_), f"last step ({rp['steps'][-1]['spec']!r}, {rp['presentation']}): leaves of {col!r} = {g}, syntactic flow {exp_}"
 
 
 def replay_of(case, kind, col, d):
@@ -1609,6 +1730,16 @@ def gen_case(rng, max_depth):
     return Case(q, path, dialect, style, nameforms)
 
 
+def switch_templates():
+    """small queries over NAMED sources (plain lower-case and unquoted mixed-case names) for the settings-switch check"""
+    inner = Sel([P("expr", "x", [("t", "a")]), P("expr", "y", [("t", "b")])], [("t", T("t"))])
+    q1 = Sel([P("expr", "total", [("o", "x"), ("o", "y")])], [("o", S(inner))])
+    mid = Sel([P("expr", "x", [("w", "x")], bare=True)], [("w", S(inner))])
+    q2 = Sel([P("expr", "k", [("p", "x"), ("q", "y")])], [("p", S(mid)), ("q", S(inner))])  # a source using a source
+    q3 = Sel([P("expr", "k", [("p", "x")])], [("p", S(inner, unaliased=True))], bare=True)   # un-aliased reference
+    return [(q1, (0,)), (q1, (6,)), (q2, (0, 6)), (q2, (6, 0)), (q3, (0,))]
+
+
 def corpus_cases():
     """witness templates, run first"""
     t = T("t")
@@ -1702,6 +1833,16 @@ def run(chk: Check) -> None:
     n = 0
     seen_keys = set()
     queue = list(hints) + [c for c in cases[:ncorpus]]
+    # ---- settings switch: one dialect class, several settings, same source-name strings, one process
+    t_sw = time.time()
+    classes = SWITCH_CLASSES if not chk.quick else [SWITCH_CLASSES[(chk.seed + i) % len(SWITCH_CLASSES)] for i in (0, 1)]
+    for cls in classes:
+        orders = [[cls, cls + SWITCH_SETTINGS[1], cls + SWITCH_SETTINGS[2]], [cls + SWITCH_SETTINGS[1], cls],
+                  [cls + SWITCH_SETTINGS[3], cls + SWITCH_SETTINGS[4]]]
+        for q_, nf in switch_templates():
+            for specs in orders:
+                settings_switch(chk, q_, "", 0, nf, specs)
+    chk.cov["settings_switch_s"] = round(time.time() - t_sw, 1)
     while time.time() < deadline:
         if queue:
             case = queue.pop(0)
@@ -1723,6 +1864,11 @@ def run(chk: Check) -> None:
         chk.case((per["inline"][0], case.dialect, case.path), nontrivial=any(case.truth),
                  sample={"sql": per["inline"][0], "dialect": case.dialect, "columns": case.names,
                          "flow": case.truth} if n % 17 == 1 else None)
+        if ("sub" in case.feats and not (case.feats & {"collist", "ref-collist", "star-order", "paren-root", "correlated", "cte-ref"})
+                and not viol and rng.random() < 0.15):
+            cls = rng.choice(SWITCH_CLASSES)
+            specs = [cls + x for x in rng.sample(SWITCH_SETTINGS, rng.choice([2, 3]))]
+            settings_switch(chk, case.q, case.path, 0, tuple(rng.choice([0, 0, 6]) for _ in range(4)), specs)
         for v in viol:
             sig = (v[0], v[2].get("pres"), tuple(sorted(case.feats & {"ref-collist", "collist", "paren-root"})))
             if sig in seen_keys or len(chk.violations) >= 10:
@@ -1747,9 +1893,9 @@ def replay(path: str) -> int:
     with open(path) as f:
         rec = json.load(f)
     rp = rec.get("replay")
-    if not isinstance(rp, dict) or "sql" not in rp:
+    if not isinstance(rp, dict) or ("sql" not in rp and "steps" not in rp):
         print("replay: no concrete input stored (model/proof tie broke); see 'no_longer_checks'")
         return 1 if rec.get("no_longer_checks") else 0
-    bad, text = check_replay(rp)
+    bad, text = replay_switch(rp) if rp.get("kind") == "settings-switch" else check_replay(rp)
     print(("replay: VIOLATES: " if bad else "replay: holds: ") + text)
     return 1 if bad else 0
